@@ -543,7 +543,21 @@ async fn exec<const N: usize>(st: &mut St<N>, ctx: &mut Ctx, toks: &[&str]) {
             }
         }
         ("filehex", [kind, id]) => match std::fs::read(st.file_path(kind, id)) {
-            Ok(b) => ctx.emit(format!("filehex {}", hex_encode(&b))),
+            Ok(mut b) => {
+                // the SHA-256 field of an index header (bytes 40..72) is not modelled: masked
+                if *kind == "index" && b.len() >= 72 {
+                    for x in &mut b[40..72] { *x = 0; }
+                    // the two checksums at the end of every record header in the leaf section are masked too (the index
+                    // model carries the header fields the lookups use; record checksums are the subject of C05)
+                    let count = u64::from_le_bytes(b[8..16].try_into().unwrap()) as usize;
+                    let rhs = u64::from_le_bytes(b[16..24].try_into().unwrap()) as usize;
+                    if rhs >= 8 && count.checked_mul(rhs).map_or(false, |t| t <= b.len()) {
+                        let start = b.len() - count * rhs;
+                        for i in 0..count { let e = start + (i + 1) * rhs; for x in &mut b[e - 8..e] { *x = 0; } }
+                    }
+                }
+                ctx.emit(format!("filehex {}", hex_encode(&b)))
+            }
             Err(_) => ctx.emit("filehex absent"),
         },
 
